@@ -357,16 +357,30 @@ class MultiValue(Object):
     def attr_list(self, ctx):
         # type: (EvalCtx) -> AttrList
         result: set[str] = set()
-        for v in self.get_rvalues(ctx):
-            result.update(v.attr_list(ctx))
+        if self.__dict__.get('_walking'):
+            # `self.x = self.x`, or a ring of such assignments: the values of
+            # the attribute lead back to the attribute
+            return result
+        self._walking = True
+        try:
+            for v in self.get_rvalues(ctx):
+                result.update(v.attr_list(ctx))
+        finally:
+            self._walking = False
         return result
 
     def get_attr(self, ctx, name):
         # type: (EvalCtx, str) -> Object | Name | None
-        for v in self.get_rvalues(ctx):
-            result = v.get_attr(ctx, name)
-            if result is not None:
-                return result
+        if self.__dict__.get('_walking'):
+            return None
+        self._walking = True
+        try:
+            for v in self.get_rvalues(ctx):
+                result = v.get_attr(ctx, name)
+                if result is not None:
+                    return result
+        finally:
+            self._walking = False
         return None
 
 
